@@ -609,5 +609,15 @@ PROPS["C19"]["explanation"] += " (FLTNARROW) hdiff keeps |a-b| of float64 elemen
 PROPS["C19"]["rules"] = PROPS["C19"]["rules"] + [rules_tools.rule_scale_siblings]
 PROPS["C19"]["explanation"] += " (SCALESIB) the per-type copies of hdfimport's scale reader use the same dimension for the same scale."
 
+PROPS["C15"]["rules"] = PROPS["C15"]["rules"] + [rules_gr.rule_interlace_shortcut, (lambda ctx: rules_ref.rule_inout_used(ctx, callees={"hdf_check_nt"}, floor=2))]
+PROPS["C15"]["explanation"] += " (ILSHORT) GRIil_convert copies a buffer unchanged only when input and output interlace are equal. (INOUT) the number type hdf_check_nt rewrites in place (little-endian/native flag) is used afterwards by the NDG reader."
+PROPS["C09"]["rules"] = PROPS["C09"]["rules"] + [rules_gr.rule_interlace_shortcut]
+
+PROPS["C18"]["rules"] = PROPS["C18"]["rules"] + [rules_repack.rule_created_with_read_type, rules_repack.rule_copy_pairs_agree]
+PROPS["C18"]["explanation"] += " (CREATETYPE) the copy of an object is created with the number type exactly as the info call of the input delivered it. (COPYPAIR) all copy helpers given one input object write to one output object."
+
+PROPS["C13"]["rules"] = PROPS["C13"]["rules"] + [rules_handles.rule_replacement_opened_first]
+PROPS["C13"]["explanation"] += " (SWAPSTREAM) Hopen closes the stream of a live file record only after its replacement has been opened."
+
 NOT_APPLICABLE = {}
 
